@@ -167,7 +167,13 @@ func runC01(r *simrt.Run) {
 		return
 	}
 	mode := nomsim.SporkMode(t.Choose(3))
-	w := nomsim.NewWorld(r, nomsim.MockGenesis(mode))
+	gen := nomsim.MockGenesis(mode)
+	if t.Choose(5) == 0 {
+		// the caps of ZNN and QSR lie just above the genesis supply: reward mints of the contracts hit them
+		gen = nomsim.TightCaps(gen, int64(t.Choose(3))*int64(1+t.Choose(1000))*100000000)
+		r.Probe("knob-tight-supply-caps")
+	}
+	w := nomsim.NewWorld(r, gen)
 	w.EnforceReceiverRule(0)
 	shortEpoch := t.Choose(3) != 0
 	if shortEpoch {
